@@ -311,7 +311,7 @@ def build():
                    "a decorated handler), after existing handlers of equal priority",
                    "added_one(event, handler, priority + ap() + rel(handler))"),
                   ("the returned key names the event", "result.event == event")],
-         modifies=["self.registered_handlers.**"], raises={"AssertionError": True},
+         modifies=["self.registered_handlers.**"], raises={"AssertionError": True}, inline_calls=True,
          bounded="2 handlers already registered for the event")
     C.helpers["ap"] = lambda I: VInt(z3.Int("additional_priority"))
 
@@ -352,8 +352,52 @@ def build():
     C.fn("EventManager.remove_handler_by_event", params=dict(self=RSELF, event=Str, handler=Fn),
          ensures=[("every handler of that event with that callback is removed; an emptied list is deleted",
                    "removed_by_callback(event, handler)")],
-         modifies=["self.registered_handlers.**", "self.registered_handlers"], raises={},
+         modifies=["self.registered_handlers.**", "self.registered_handlers"], raises={}, inline_calls=True,
          bounded="2 handlers registered for the event")
+
+    def replaced(I, event, handler, prio, kwargs):
+        """the new list is the old one WITHOUT the registrations of this callable (when kwargs are given: only those
+        registered with equal kwargs) - every other registration is kept, in order - plus exactly one new entry
+        (callback, priority, kwargs) placed after the kept entries of equal or higher priority"""
+        old, new = handlers_of(I, I.old_heap, event), handlers_of(I, I.heap, event)
+        old = old or []
+        if new is None:
+            return VBool(False)
+        hf, kw = I.force(handler), I.force(kwargs)
+        kw_given = len(I.container(kw.ref).entries) > 0
+        match = [z3.And(I.eq(o.items[0], hf), I.eq(o.items[2], kw) if kw_given else z3.BoolVal(True)) for o in old]
+        cases = []
+        n = len(old)
+        for mask in range(1 << n):
+            sel = [bool(mask >> i & 1) for i in range(n)]           # True = kept
+            cond = z3.And([z3.Not(m) if k else m for m, k in zip(match, sel)] + [z3.BoolVal(True)])
+            kept = [o for o, k in zip(old, sel) if k]
+            if len(new) != len(kept) + 1:
+                cases.append(z3.And(cond, z3.BoolVal(False)))
+                continue
+            pos_cases = []
+            for pos in range(len(new)):
+                rest = new[:pos] + new[pos + 1:]
+                same = z3.And([I.eq(a, b) for a, b in zip(rest, kept)] + [z3.BoolVal(True)])
+                me = new[pos]
+                is_me = z3.And(I.eq(me.items[0], hf), I.eq(me.items[1], prio), I.eq(me.items[2], kw))
+                stable = z3.And([I.force(o.items[1]).t >= I.force(prio).t for o in kept[:pos]] +
+                                [I.force(o.items[1]).t < I.force(prio).t for o in kept[pos:]] + [z3.BoolVal(True)])
+                pos_cases.append(z3.And(same, is_me, stable))
+            cases.append(z3.And(cond, z3.Or(pos_cases)))
+        return VBool(z3.Or(cases))
+    C.helpers["replaced"] = replaced
+    C.fn("EventManager.replace_handler",
+         params=dict(self=RSELF, event=Str, handler=Fn, priority=Int, kwargs=Init(handler_kwargs)),
+         requires=[("production mode", "self.machine.options['production']"), ("I1 holds before", "sorted_desc(event)")],
+         result=TupleS(KEY, Str, ntname="EventHandlerKey", fields=("key", "event")),
+         ensures=[("RP1: only the registrations of this callable - and, when kwargs are given, only those registered with "
+                   "EQUAL kwargs - are replaced; every other registration of the event (the same callable with other "
+                   "kwargs included) keeps its place and is still delivered to",
+                   "replaced(event, handler, priority + ap() + rel(handler), kwargs)"),
+                  ("I1: the handler list stays sorted by descending priority", "sorted_desc(event)")],
+         modifies=["self.registered_handlers.**", "self.registered_handlers"], raises={"AssertionError": True},
+         bounded="2 handlers already registered for the event")
 
     # ------------------------------------------------------------------ _post, _process_event
     PE = Opaque("PostedEv")
